@@ -150,6 +150,20 @@ def big_payload_cases(first_id, limits):
     return out
 
 
+def logical_text_cases(first_id):
+    """well-formed strings that are not the text of the logical type (uuid on string): short, empty, 31 / 32+ characters"""
+    us = {"k": "uuid", "base": "string"}
+    rec = {"k": "record", "name": "RU", "fields": [{"name": "seq", "type": {"k": "int"}}, {"name": "id", "type": us}]}
+    texts = [b"", b"-", b"not-a-uuid", b"0" * 31, b"z" * 32, b"550e8400-e29b-41d4-a716-44665544000", b"550e8400e29b41d4a716446655440000"]
+    out = []
+    for t in texts:
+        body = _zz(len(t)) + list(t)
+        for schema, prefix in ((us, []), (rec, [2]), ({"k": "array", "items": us}, [2]), ({"k": "union", "branches": [{"k": "null"}, us]}, [2])):
+            tail = [0] if schema["k"] == "array" else []
+            out.append({"id": first_id + len(out), "entry": "datum", "s": schema, "bytes": prefix + body + tail, "origin": "uuidtext"})
+    return out
+
+
 def run(prop, tier, seed, replay=None):
     rep = vf.Report(prop, tier, seed)
     vf.build_harness()
@@ -202,6 +216,7 @@ def run(prop, tier, seed, replay=None):
             cases.append({"id": len(cases), "entry": "datum", "s": rec, "bytes": [], "origin": "uninhabited"})
         limits = [4096, 1 << 20] if tier == "quick" else [4096, 65536, 1 << 20, 512 << 20]
         cases += big_payload_cases(len(cases), limits)
+        cases += logical_text_cases(len(cases))
         if prop == "C05":
             # limit-aware hostile inputs: many blocks that are each below the limit but add up far beyond it
             cases += multiblock_cases(len(cases), limits)
